@@ -339,6 +339,9 @@ pub fn bitfinex_validate(env: &SocketEnv, map: Map<Key>, requests: &[String], ch
                             return Err(format!("venue got unexpected request {t}"));
                         }
                         asked.push((v["channel"].as_str().unwrap_or("").to_string(), v["symbol"].as_str().unwrap_or("").to_string()));
+                        // a protocol-level ping after each request lets the TCP ACK piggy-back on data
+                        // (otherwise Nagle on the client + delayed ACK here cost 40 ms per session)
+                        ws.send(WsMessage::Ping(Vec::new().into())).await.map_err(|e| format!("venue ping: {e}"))?;
                     }
                     Some(Ok(_)) => continue,
                     other => return Err(format!("venue: client went away: {other:?}")),
